@@ -50,9 +50,9 @@ Proof.
       * rewrite sget_sset_other in Gk; [| apply sdel_sorted; assumption | exact Ne].
         rewrite sget_sdel_other in Gk by assumption. apply (U _ _ Gk En).
   - destruct (upd_dg s _ 0 (- ur_amt r1)) as [[s1 z]|] eqn:E1; [|split; assumption].
-    destruct (upd_sa s1 _ 0 (ur_act r1) (- ur_amt r1)) as [s2|] eqn:E2; [|split; assumption].
+    destruct (pay_staker s1 r1) as [s2|] eqn:E2; [|split; assumption].
     destruct (upd_oa s2 _ 0 (- ur_amt r1) 0 0) as [s3|] eqn:E3; [|split; assumption].
-    apply upd_dg_frame in E1. apply upd_sa_frame in E2. apply upd_oa_frame in E3.
+    apply upd_dg_frame in E1. apply pay_frame in E2. apply upd_oa_frame in E3.
     destruct E1 as (u1 & p1 & _), E2 as (u2 & p2 & _), E3 as (u3 & p3 & _).
     unfold del_record, keepQ, uniq_nonce. simpl. rewrite u3, u2, u1, p3, p2, p1. split.
     + rewrite sget_sdel_other by assumption. exact Px.
@@ -68,12 +68,13 @@ Lemma end_block_wait s r : inv_all s -> sget (ur s) (rkey r) = Some r -> height 
   keepQ r (end_block s) /\ sget (ur (end_block s)) (rkey r) = Some r /\ hold (end_block s) = hold s /\
   inv_all (end_block s) /\ height (end_block s) = height s + 1.
 Proof.
-  intros Hi G Lt Kq. pose proof Hi as (I & Hj & N). pose proof I as (Su & Sp & K & Ip & W & Hh).
+  intros Hi G Lt Kq. pose proof Hi as (I & Hj & N & Lst). pose proof I as (Su & Sp & K & Ip & W & Hh).
   assert (inv_all (end_block s)) as Hi'.
-  { split; [|split].
+  { split; [|split; [|split]].
     - exact (step_idx s EndBlock I eq_refl eq_refl).
     - exact (step_J s EndBlock I Hj eq_refl eq_refl).
-    - exact (step_nn s EndBlock I N eq_refl). }
+    - exact (step_nn s EndBlock I N eq_refl).
+    - exact (step_lst s EndBlock I Lst eq_refl eq_refl). }
   assert (height (end_block s) = height s + 1) as Hg by (unfold end_block; reflexivity).
   unfold end_block in *.
   destruct (fetch (ur s) (due_keys (height s) (pidx s))) as [recs|] eqn:F.
